@@ -7,8 +7,9 @@ import FsDb.Proofs.StepGc
 namespace FsDb
 open Sys Spec
 
-/-- the horizon is safe: no registered transaction began before it -/
-def SafeHz (c : Sys) (hz : Nat) : Prop := ∀ r ∈ c.reg, hz ≤ r.seq
+/-- the horizon is safe: no registered transaction that still reads (i.e. is not inside Commit /
+    Rollback) began before it -/
+def SafeHz (cl : List Nat) (c : Sys) (hz : Nat) : Prop := ∀ r ∈ c.reg, r.id ∉ cl → hz ≤ r.seq
 
 theorem mem_delsAt {c : Sys} (i : Inv c) (hz : Nat) (v : Ver) :
     v ∈ delsAt c hz ↔ ∃ k, v ∈ (collect (c.main k) hz).1 := by
@@ -106,7 +107,7 @@ theorem collectAt_inv {c : Sys} (i : Inv c) (hz : Nat) : Inv (collectAt c hz) :=
   · intro k u hu; exact i.tagMain k u (hmsub k u hu)
   · exact i.tagTx
 
-theorem collectAt_R {c : Sys} {s : State} (h : R c s) {hz : Nat} (hsafe : SafeHz c hz) : R (collectAt c hz) s := by
+theorem collectAt_R {c : Sys} {s : State} {cl : List Nat} (h : Rx cl c s) {hz : Nat} (hsafe : SafeHz cl c hz) : Rx cl (collectAt c hz) s := by
   have i := h.inv
   have i' := collectAt_inv i hz
   refine ⟨i', h.clock, h.dom, h.reg, ?_, ?_, h.histDom⟩
@@ -131,7 +132,7 @@ theorem collectAt_R {c : Sys} {s : State} (h : R c s) {hz : Nat} (hsafe : SafeHz
         rw [List.pairwise_append] at hs
         exact hs.2.2 u hu v hv'
     · intro hp
-      show ∃ hd, (collect (c.main k) hz).2.head? = some hd ∧ ∀ r ∈ c.reg, hd.seq < r.seq
+      show ∃ hd, (collect (c.main k) hz).2.head? = some hd ∧ ∀ r ∈ c.reg, r.id ∉ cl → hd.seq < r.seq
       by_cases hc1 : (collect (c.main k) hz).1 = []
       · have hpre : pre ≠ [] := by simpa [hc1] using hp
         have h2eq : (collect (c.main k) hz).2 = c.main k := by
@@ -139,14 +140,14 @@ theorem collectAt_R {c : Sys} {s : State} (h : R c s) {hz : Nat} (hsafe : SafeHz
         rw [h2eq]; exact h3 hpre
       · obtain ⟨hd, hh', hle⟩ := collect_head_le (c.main k) hz hc1
         refine ⟨hd, hh', ?_⟩
-        intro r hr
+        intro r hr hrc
         have hdmem : hd ∈ c.main k := by
           apply (collect_snd_sublist (c.main k) hz).subset
           cases hc2 : (collect (c.main k) hz).2 with
           | nil => rw [hc2] at hh'; cases hh'
           | cons a t => rw [hc2] at hh'; simp at hh'; subst hh'; simp
         have hne := i.beginNotVer r hr k hd (i.main_sub_all hdmem)
-        have := hsafe r hr
+        have := hsafe r hr hrc
         omega
 
 /-- the versions handed to deletion by a collection are no longer linked, and their ids are old -/
@@ -160,7 +161,7 @@ theorem delsAt_dead {c : Sys} (i : Inv c) (hz : Nat) :
   · obtain ⟨k, hk⟩ := (mem_delsAt i hz v).mp hv
     exact (i.bounds k v (i.main_sub_all ((collect_fst_sublist _ _).subset hk))).2.2.1
 
-theorem gcDraw_R {c : Sys} {s : State} (h : R c s) : R (gcDraw c) (Spec.step s .gc).1 := by
+theorem gcDraw_R {c : Sys} {s : State} {cl : List Nat} (h : Rx cl c s) : Rx cl (gcDraw c) (Spec.step s .gc).1 := by
   have hspec : (Spec.step s .gc).1 = if s.open_.isEmpty then { s with clock := s.clock + 1 } else s := rfl
   rw [hspec]
   have he := open_empty_iff h
@@ -189,11 +190,11 @@ theorem gcDraw_R {c : Sys} {s : State} (h : R c s) : R (gcDraw c) (Spec.step s .
       rw [h.own x hx k, ownLatest_tx hne, ownLatest_tx hne]
 
 /-- the horizon computed by the horizon step is safe in the state after it, and stays below the counter -/
-theorem gcHz_safe {c : Sys} (i : Inv c) : SafeHz (gcDraw c) (gcHz c) ∧ gcHz c ≤ (gcDraw c).counter := by
+theorem gcHz_safe {c : Sys} (i : Inv c) (cl : List Nat) : SafeHz cl (gcDraw c) (gcHz c) ∧ gcHz c ≤ (gcDraw c).counter := by
   unfold gcDraw gcHz SafeHz
   cases hhead : c.reg.head? with
   | some tx =>
-    refine ⟨fun r hr => reg_head_min i hhead r hr, ?_⟩
+    refine ⟨fun r hr _ => reg_head_min i hhead r hr, ?_⟩
     have htxmem : tx ∈ c.reg := by
       cases hreg : c.reg with
       | nil => rw [hreg] at hhead; cases hhead
@@ -204,5 +205,110 @@ theorem gcHz_safe {c : Sys} (i : Inv c) : SafeHz (gcDraw c) (gcHz c) ∧ gcHz c 
       | nil => rfl
       | cons a t => rw [hr] at hhead; cases hhead
     exact ⟨by intro r hr; simp [hreg] at hr, Nat.le_refl _⟩
+
+def Spec.tick (s : State) (n : Nat) : State := { s with clock := max s.clock n }
+
+theorem Inv.tick {c : Sys} (i : Inv c) (n : Nat) : Inv (c.tick n) := by
+  have hle : c.counter ≤ max c.counter n := Nat.le_max_left _ _
+  refine ⟨i.mainSorted, i.txSorted, i.allSorted, i.allMem, ?_, i.cidUnique, i.regIds, i.regMain, i.regSorted,
+    ?_, i.txsReg, i.ownAfter, i.beginNotVer, i.stor, i.cfsBound, i.pendDead, i.pendBound, i.domAll, i.domNodup,
+    i.tagMain, i.tagTx⟩
+  · intro k v hv; obtain ⟨a, b, c', d⟩ := i.bounds k v hv; exact ⟨a, Nat.le_trans b hle, c', d⟩
+  · intro r hr; have := i.regBound r hr; exact ⟨this.1, Nat.le_trans this.2 hle⟩
+
+theorem Rx.tick {c : Sys} {s : State} {cl : List Nat} (h : Rx cl c s) (n : Nat) : Rx cl (c.tick n) (Spec.tick s n) := by
+  refine ⟨h.inv.tick n, ?_, h.dom, h.reg, ?_, h.hist, h.histDom⟩
+  · show max s.clock n = max c.counter n; rw [h.clock]
+  · intro x hx k
+    have hne : x.id ≠ mainTx := h.inv.regMain _ (h.mem_open hx)
+    rw [h.own x hx k, ownLatest_tx hne, ownLatest_tx hne]
+    rfl
+
+
+/-! ### the horizon step while transactions are inside Commit / Rollback -/
+
+theorem liveReg_head {c : Sys} (i : Inv c) {cl : List Nat} {tx : TxRec} (h : (liveReg c cl).head? = some tx) :
+    tx ∈ c.reg ∧ tx.id ∉ cl ∧ ∀ r ∈ c.reg, r.id ∉ cl → tx.seq ≤ r.seq := by
+  have hs : (liveReg c cl).Pairwise (fun a b => a.seq < b.seq) := i.regSorted.filter _
+  cases hl : liveReg c cl with
+  | nil => rw [hl] at h; cases h
+  | cons a rest =>
+    rw [hl] at h hs
+    simp only [List.head?_cons, Option.some.injEq] at h
+    subst h
+    have hmem : a ∈ liveReg c cl := by rw [hl]; simp
+    have hm := List.mem_filter.mp hmem
+    refine ⟨hm.1, by simpa using hm.2, ?_⟩
+    intro r hr hrc
+    have : r ∈ liveReg c cl := List.mem_filter.mpr ⟨hr, by simpa using hrc⟩
+    rw [hl] at this
+    rcases List.mem_cons.mp this with rfl | hin
+    · exact Nat.le_refl _
+    · exact Nat.le_of_lt (List.rel_of_pairwise_cons hs hin)
+
+theorem liveReg_none {c : Sys} {cl : List Nat} (h : (liveReg c cl).head? = none) : ∀ r ∈ c.reg, r.id ∈ cl := by
+  intro r hr
+  have hnil : liveReg c cl = [] := by cases hl : liveReg c cl with
+    | nil => rfl
+    | cons a t => rw [hl] at h; cases h
+  have := List.filter_eq_nil_iff.mp hnil r hr
+  simpa using this
+
+/-- the horizon computed while `cl` are inside Commit / Rollback is safe in the state after the step -/
+theorem gcHzX_safe {c : Sys} (i : Inv c) (cl : List Nat) :
+    SafeHz cl (gcDrawX c cl) (gcHzX c cl) ∧ gcHzX c cl ≤ (gcDrawX c cl).counter := by
+  unfold gcDrawX gcHzX SafeHz
+  cases hhead : (liveReg c cl).head? with
+  | some tx =>
+    obtain ⟨hm, _, hmin⟩ := liveReg_head i hhead
+    exact ⟨hmin, (i.regBound tx hm).2⟩
+  | none =>
+    refine ⟨?_, Nat.le_refl _⟩
+    intro r hr hrc
+    exact absurd (liveReg_none hhead r hr) hrc
+
+/-- the horizon step as two entries of the log: the collector's own entry (on which the
+    specification draws a number exactly when no transaction is open) and the counter's value after
+    the step -/
+theorem gcDrawX_R {c : Sys} {s : State} {cl : List Nat} (h : Rx cl c s) :
+    Rx cl (gcDrawX c cl) (Spec.tick (Spec.step s .gc).1 (gcDrawX c cl).counter) := by
+  have hspec : (Spec.step s .gc).1 = if s.open_.isEmpty then { s with clock := s.clock + 1 } else s := rfl
+  have he := open_empty_iff h
+  have hclk := h.clock
+  cases hhead : (liveReg c cl).head? with
+  | some tx =>
+    obtain ⟨hm, _, _⟩ := liveReg_head h.inv hhead
+    have hne : c.reg.head?.isNone = false := by
+      cases hr : c.reg with
+      | nil => rw [hr] at hm; cases hm
+      | cons a t => rfl
+    have e1 : gcDrawX c cl = c := by unfold gcDrawX; rw [hhead]
+    rw [e1, hspec, if_neg (by rw [he, hne]; simp)]
+    have : Spec.tick s c.counter = s := by
+      cases s; simp only [Spec.tick] at *; simp [hclk]
+    rw [this]; exact h
+  | none =>
+    have e1 : gcDrawX c cl = c.tick (c.counter + 1) := by
+      unfold gcDrawX Sys.tick; rw [hhead]
+      simp [Nat.max_eq_right (Nat.le_succ _)]
+    have e2 : (gcDrawX c cl).counter = c.counter + 1 := by unfold gcDrawX; rw [hhead]
+    rw [e2]
+    by_cases hemp : s.open_.isEmpty = true
+    · rw [hspec, if_pos hemp]
+      have hreg : c.reg = [] := by
+        rw [he] at hemp
+        cases hr : c.reg with
+        | nil => rfl
+        | cons a t => rw [hr] at hemp; simp at hemp
+      have e3 : gcDrawX c cl = gcDraw c := by
+        unfold gcDrawX gcDraw; rw [hhead, hreg]; rfl
+      have hd := gcDraw_R h
+      rw [hspec, if_pos hemp] at hd
+      rw [e3]
+      have : Spec.tick { s with clock := s.clock + 1 } (c.counter + 1) = { s with clock := s.clock + 1 } := by
+        simp [Spec.tick, hclk]
+      rw [this]; exact hd
+    · rw [hspec, if_neg hemp, e1]
+      exact h.tick _
 
 end FsDb
